@@ -10,6 +10,9 @@ def main(argv):
     prop, shard, nshards, seed, tier, out, pfile = argv[:7]
     params = json.loads(open(pfile).read())
     from .workers import ShardCtx
+    from .common import install_speedups
+
+    install_speedups()
 
     ctx = ShardCtx(prop, int(shard), int(nshards), int(seed), tier, out, params)
     mod = importlib.import_module(f"vf.props.{prop}")
